@@ -305,12 +305,16 @@ def rule_resolution(ctx, r):
 def rule_log_cleaning(ctx, r):
     idx = ctx.index
     from .evalhelpers import eval_clean_logs
-    removed, listed, cl = eval_clean_logs(ctx)
+    left, listed, cl = eval_clean_logs(ctx)
     con = f"{cl.module.relpath}::{cl.qual}"
-    want = sorted(f"{PROJ}/.gwf/logs/{n}" for n in ("old.stdout", "old.stderr", "gone.stdout", "gone.stderr"))
-    r.check(removed == want and listed == [f"{PROJ}/.gwf/logs"], con, "removes only <name>.stdout/.stderr for names in (log files - current target names)",
-            f"with targets A, B and logs of A, B, old, gone in {listed}, log cleaning removes {removed}: it must remove exactly the logs of `old` and `gone` "
-            "(targets that left the workflow) and never a log of a current target", cl.where)
+    want = sorted(("A.stdout", "A.stderr", "B.stdout", "old.v2.stdout", "old.v2.stderr"))
+    if isinstance(left, str) and "[not-modelled]" in left:
+        from ..loader import AnalysisError
+        raise AnalysisError(f"{con}: log cleaning cannot be evaluated ({left})")
+    r.check(left == want and set(listed) <= {f"{PROJ}/.gwf/logs"}, con, "removes exactly the logs of names in (log files - current target names)",
+            f"with targets A, B, old.v2 and the logs A.stdout A.stderr B.stdout old.stdout old.stderr gone.stderr old.v2.stdout old.v2.stderr in {listed or '?'}, log cleaning leaves "
+            f"{left}: it must remove exactly the logs of `old` and `gone` (targets that left the workflow) and never a log of a current target - `old.v2` is a current "
+            "target whose name merely starts like a removed one", cl.where)
     run_f = idx.func("gwf.plugins.run:run")
     from ..astutil import truth_table
     from ..index import ancestors
